@@ -1,6 +1,8 @@
 import Proofs.Effects
 import Proofs.Objs
 import BycycleModel.EffectPrograms
+import Proofs.ObjMachine
+import BycycleModel.ObjTrace
 /-!
 # C14 — Bycycle objects reproduce the functional API and hold no stale state
 
@@ -32,7 +34,71 @@ theorem C14_reduce (th : List (String × Rat)) (r : Option Rat) :
     reduceThresholds th none = th :=
   ⟨reduceThresholds_spec th r, reduceThresholds_none th⟩
 
+/-! ## The object as a state machine (BycycleModel/ObjMachine.lean)
+
+`A : Obj.Api S T` is the functional API (`compute_features`, `recompute_edges`, column read) as a parameter. -/
+open Obj in
+/-- the stored settings after ANY history are the constructor's settings with the edit operations applied in
+order: fits, edge recomputations, loads and attribute reads leave no trace in them. -/
+theorem C14_settings_history {S T : Type} (A : Api S T) (o : Obj S T) (ops : List (Op S T)) :
+    (run A o ops).st = ops.foldl editSettings o.st := run_settings A o ops
+
+open Obj in
+/-- HISTORY INDEPENDENCE: whatever sequence of fits, edge recomputations, loads and edits preceded it, a fit has the
+outcome of a fit on a freshly constructed object holding the current settings, and when it succeeds the same table:
+`compute_features(current settings, x)`; the stored signal is `x`. -/
+theorem C14_history_independence {S T : Type} (A : Api S T) (o : Obj S T) (ops : List (Op S T)) (x : S) :
+    let cur := ops.foldl editSettings o.st
+    (step A (run A o ops) (.fit x)).2 = (step A (fresh cur) (.fit x)).2 ∧
+    ((step A (fresh cur) (.fit x)).2 = .done →
+      (step A (run A o ops) (.fit x)).1.df = (step A (fresh (S := S) (T := T) cur) (.fit x)).1.df ∧
+      (step A (run A o ops) (.fit x)).1.sig = some x ∧
+      ∃ t, A.cf cur x = .ok t ∧ (step A (run A o ops) (.fit x)).1.df = some t) := fit_after_history A o ops x
+
+open Obj in
+/-- `recompute_edges(r)` = the functional edge recomputation of the current table with every `*threshold` entry
+lowered by `r` (other entries untouched); the stored settings are not modified; without a table it raises. -/
+theorem C14_edges {S T : Type} (A : Api S T) (o : Obj S T) (r : Option Rat) :
+    (∀ t, o.df = some t →
+      let lowered := o.st.thresholds.map fun p => if p.1.endsWith "threshold" then (p.1, p.2 - r.getD 0) else p
+      (step A o (.edges r)).1.st = o.st ∧
+      (∀ t', A.rc t lowered = .ok t' → step A o (.edges r) = ({ o with df := some t' }, .done)) ∧
+      (∀ e, A.rc t lowered = .error e → step A o (.edges r) = (o, .raised))) ∧
+    (o.df = none → step A o (.edges r) = (o, .raised)) :=
+  ⟨fun t h => edges_spec A o r t h, edges_without_table A o r⟩
+
+open Obj in
+/-- attribute access returns the column of the CURRENT table (AttributeError when there is no table or no such
+column) and changes nothing. -/
+theorem C14_attr {S T : Type} (A : Api S T) (o : Obj S T) (key : String) :
+    (step A o (.attr key)).1 = o ∧
+    (∀ t, o.df = some t → (step A o (.attr key)).2 = match A.col t key with | some v => .column v | none => .raised) ∧
+    (o.df = none → (step A o (.attr key)).2 = .raised) := attr_spec A o key
+
+open Obj in
+/-- a fit that raises: a 2-D array is refused before anything is assigned; when `compute_features` raises, the new
+signal HAS been stored while the table is still the previous one (documented behaviour of the source, not a defect
+of the property: the next successful fit is governed by C14_history_independence). -/
+theorem C14_failed_fit {S T : Type} (A : Api S T) (o : Obj S T) (x : S) :
+    (A.oneD x = false → step A o (.fit x) = (o, .raised)) ∧
+    (∀ e, A.oneD x = true → A.cf o.st x = .error e → step A o (.fit x) = ({ o with sig := some x }, .raised)) :=
+  ⟨fit_not_1d A o x, fun e h1 h => fit_raises A o x e h1 h⟩
+
+open Obj in
+/-- threshold / burst option edits and attribute reads keep the table and the signal. -/
+theorem C14_table_kept {S T : Type} (A : Api S T) (o : Obj S T) (op : Op S T)
+    (h : match op with | .edit .. => True | .rebind .. => True | .editbk .. => True | .attr .. => True | _ => False) :
+    (step A o op).1.df = o.df ∧ (step A o op).1.sig = o.sig := table_kept A o op h
+
 /-! non-vacuity -/
+open Obj in
+/-- a concrete history on the symbolic instance: fit, edit, failed fit, edge recomputation. The table after the
+history is `rc (cf (settings at the first fit) 0) (lowered CURRENT thresholds)`. -/
+example :
+    ((trace (construct true true none (some [("monotonicity", 4/5), ("min_n_cycles", 3)]) none true)
+      [(.fit 0, true), (.edit "min_n_cycles" 6, true), (.fit 1, false), (.edges (some (1/10)), true)]).map (·.1)) =
+    [.done, .done, .raised, .done] := by decide +kernel
+
 example : expandShorthand [("monotonicity", 4/5), ("amp_fraction_threshold", 0), ("min_n_cycles", 3)] =
     [("monotonicity_threshold", 4/5), ("amp_fraction_threshold", 0), ("min_n_cycles", 3)] := by decide +kernel
 example : reduceThresholds [("monotonicity_threshold", 4/5), ("min_n_cycles", 3)] (some (1/5)) =
